@@ -9,11 +9,32 @@
 #include "gen.c"
 #define PASTE_(a, b) a##b
 #define PASTE(a, b) PASTE_(a, b)
+#ifdef FEATURE_SIG
+void PASTE(MFUNC, __contract)(struct MTYPE *this_, struct Parameters *prm)
+#else
 void PASTE(MFUNC, __contract)(struct MTYPE *this_, struct Parameters *prm, struct vec_Point2 *coordinates)
+#endif
 __CPROVER_requires(wb_thrown == 0)
+#ifdef FEATURE_SIG
+__CPROVER_assigns(wb_thrown, *this_, this_->base_.world->feature_tags)
+#else
 __CPROVER_assigns(wb_thrown, *this_)
+#endif
 __CPROVER_ensures(!wb_thrown ==> (SAMEL(this_->min_depth, this_->min_depth_surface.minimum) && SAMEL(this_->max_depth, this_->max_depth_surface.maximum)))
 ;
+#ifdef FEATURE_SIG
+/* the four model lists are out-parameters of Parameters::get_unique_pointers: any list within capacity */
+#define CAT5_(a, b, c, d, e) a##b##c##d##e
+#define CAT5(a, b, c, d, e) CAT5_(a, b, c, d, e)
+#define GUP(K) CAT5(Parameters_get_unique_pointers__ret_Features_, FAMX, Models_, K, _Interface)
+#define VECP(K) CAT5(vec_Features_, FAMX, Models_, K, _Interface_p)
+#define CAPP(K) CAT5(WB_CAP_vec_Features_, FAMX, Models_, K, _Interface_p)
+#define MODELS(K) \
+_Bool PASTE(GUP(K), __contract)(struct Parameters *this_, struct wb_string *name, struct VECP(K) *vector) \
+__CPROVER_requires(1) __CPROVER_assigns(wb_thrown, *vector) __CPROVER_ensures(IS_BOOL(wb_thrown) && vector->n <= CAPP(K)) \
+;
+MODELS(Temperature) MODELS(Composition) MODELS(Grains) MODELS(Velocity)
+#endif
 #ifdef VEL3
 /* the schema declares "velocity" as an array of exactly three numbers */
 struct vec_double Parameters_get_vector__string__ret_double__contract(struct Parameters *this_, struct wb_string *name)
@@ -24,4 +45,9 @@ void h_model_bounds(void) { struct MTYPE m; struct Parameters prm; struct vec_Po
 #ifdef NEED_WORLD
   struct World w; m.base_.world = &w;
 #endif
-  MFUNC(&m, &prm, &c); REACHABLE(); }
+#ifdef FEATURE_SIG
+  struct CoordinateSystems_Interface cs; prm.coordinate_system = &cs; MFUNC(&m, &prm);
+#else
+  MFUNC(&m, &prm, &c);
+#endif
+  REACHABLE(); }
